@@ -268,14 +268,21 @@ def edge_rule(P, R):
 def prefilters(P, R):
     # array form: `if x < b[0] or y < b[1] or x > b[2] or y > b[3]: continue` ; scalar form: self.intersects_bounds(bounds) (closed, C01.e)
     f = P.func(PT, '_perform_intersects_line')
-    tests = [s for s in ast.walk(f.node) if isinstance(s, ast.If) and any(isinstance(x, ast.Continue) for x in s.body) and 'bounds' in astq.names_in(s.test)]
+    bname = next((s_.targets[0].id for s_ in ast.walk(f.node) if isinstance(s_, ast.Assign) and isinstance(s_.targets[0], ast.Name) and isinstance(s_.value, ast.Tuple)
+                  and len(s_.value.elts) == 4 and all(isinstance(e_, ast.Call) and norm(e_.func) in ('min', 'max') for e_ in s_.value.elts)), 'bounds')
+    xy = {}
+    for s_ in ast.walk(f.node):
+        if isinstance(s_, ast.Assign) and isinstance(s_.targets[0], ast.Name) and isinstance(s_.value, ast.Subscript) and norm(s_.value.value) == f.params[0]:
+            xy['y' if '+ 1' in norm(s_.value.slice) else 'x'] = s_.targets[0].id
+    xname, yname = xy.get('x', 'x'), xy.get('y', 'y')
+    tests = [s for s in ast.walk(f.node) if isinstance(s, ast.If) and any(isinstance(x, ast.Continue) for x in s.body) and bname in astq.names_in(s.test)]
     R.floor('C02.b', 'bbox pre-filter in the array line kernel', len(tests), 1)
     for t in tests:
         bad = []
         cases = [o for o in ordeval.orderings(3) if o[0] <= o[1]]
         for cx in cases:
             for cy in cases:
-                env = {'x': Sym(cx[2], 'x', 'X'), 'y': Sym(cy[2], 'y', 'Y'), 'bounds': Row([Sym(cx[0], 'b.x0', 'X'), Sym(cy[0], 'b.y0', 'Y'), Sym(cx[1], 'b.x1', 'X'), Sym(cy[1], 'b.y1', 'Y')])}
+                env = {xname: Sym(cx[2], 'x', 'X'), yname: Sym(cy[2], 'y', 'Y'), bname: Row([Sym(cx[0], 'b.x0', 'X'), Sym(cy[0], 'b.y0', 'Y'), Sym(cx[1], 'b.x1', 'X'), Sym(cy[1], 'b.y1', 'Y')])}
                 try:
                     I = ordeval.Interp(env, {})
                     got = I.truth(I.expr(t.test), t.test)
@@ -295,7 +302,8 @@ def prefilters(P, R):
     for qual in ('Point._intersects_line', '_perform_intersects_line'):
         g = P.func(PT, qual)
         for s in ast.walk(g.node):
-            if isinstance(s, ast.Assign) and isinstance(s.targets[0], ast.Name) and s.targets[0].id == 'bounds' and isinstance(s.value, ast.Tuple) and len(s.value.elts) == 4:
+            if isinstance(s, ast.Assign) and isinstance(s.targets[0], ast.Name) and isinstance(s.value, ast.Tuple) and len(s.value.elts) == 4 \
+                    and all(isinstance(e_, ast.Call) and norm(e_.func) in ('min', 'max') for e_ in s.value.elts):
                 fn = [norm(e.func) if isinstance(e, ast.Call) else '?' for e in s.value.elts]
                 args = [astq.trace(g, e.args[0]) if isinstance(e, ast.Call) and e.args else None for e in s.value.elts]
                 ax = []
